@@ -166,6 +166,11 @@ type Raft struct {
 	// RPC chan comes from the transport layer
 	rpcCh <-chan RPC
 
+	// heartbeatCh carries the heartbeats that the transport's fast path
+	// (processHeartbeat) cannot answer without touching state owned by the
+	// main loop; they are processed there like any other RPC.
+	heartbeatCh chan RPC
+
 	// Shutdown channel to exit, protected to prevent concurrent exits
 	shutdown     bool
 	shutdownCh   chan struct{}
@@ -567,6 +572,7 @@ func NewRaft(conf *Config, fsm FSM, logs LogStore, stable StableStore, snaps Sna
 		configurationChangeCh: make(chan *configurationChangeFuture),
 		configurations:        configurations{},
 		rpcCh:                 trans.Consumer(),
+		heartbeatCh:           make(chan RPC),
 		snapshots:             snaps,
 		userSnapshotCh:        make(chan *userSnapshotFuture),
 		userRestoreCh:         make(chan *userRestoreFuture),
